@@ -17,12 +17,13 @@ Part B (definitions against the layout): for every class, field boundary product
   octet (NOPE x 16 modulation codes x 8 TSC), TRXN 0..63, batch/shadow bits, every reserved bit
   set on receipt, all 15 wrong version nibbles, every burst length of another modulation,
   every truncation offset and trailing octets of a set of base PDUs, and for v2 every
-  assignment of {13 legal codes, NOPE} to the first PDU and 0..3 (quick) / 0..4 (thorough)
+  assignment of {15 legal codes, NOPE} to the first PDU and 0..3 (quick) / 0..4 (thorough)
   batched PDUs plus code sweeps for 5..8 batched PDUs.
 
+Decided: MOD 11xx is AQPSK with two TSC-set bits (296 octets), so 1110/1111 must encode and
+  decode like 1100/1101 in PDUv1Rx and PDUv2Rx/Tx incl. batched sub-PDUs; only 0111 is reserved.
 Not decided by the statement (both outcomes accepted, the observed one is counted):
-  MOD codes 1110/1111 (rejected, or read as AQPSK = 296), version-0 Rx datagrams whose burst
-  part is not 148, 150, 444 or 446 octets long.
+  version-0 Rx datagrams whose burst part is not 148, 150, 444 or 446 octets long.
 """
 import itertools
 from array import array
@@ -37,7 +38,7 @@ LEVEL = "exploration"
 HYPER = 2715648
 PDU_NAMES = ("v0rx", "v0tx", "v1rx", "v1tx", "v2rx", "v2tx")
 BYTES_KEYS = ("soft-bits", "hard-bits", "pad")
-LEGAL = list(R2.LEGAL_CODES)                 # 13 legal MOD codes (TSC-set bits included)
+LEGAL = list(R2.LEGAL_CODES)                 # 15 legal MOD codes (TSC-set bits included); only 0111 is reserved
 SLOTS = LEGAL + ["nope"]                     # what one PDU of a v2 datagram can be
 LENS = (0, 148, 296, 444, 592, 740)
 
@@ -900,18 +901,22 @@ def run(ctx):
                  "BATCH/SHADOW, FN, RSSI, ToA, C/I, PWR, SCPIR), all 256 MTS octets x candidate burst lengths at every "
                  "PDU position (first, 1st and 2nd batched), every reserved bit set alone and together, all 16 version "
                  "nibbles, every truncation offset and 6 trailing-octet strings of %d base PDUs, and for v2 every "
-                 "assignment of {13 legal MOD codes, NOPE} to the first PDU and 0..%d batched PDUs%s. Each case is "
+                 "assignment of {15 legal MOD codes, NOPE} to the first PDU and 0..%d batched PDUs%s. Each case is "
                  "compared with the layout reference (vlib.ref.trxd, vlib.ref.trxd_v2). non-trivial = distinct codec "
                  "messages + distinct (class, datagram) decode inputs the reference decides (accept or reject), "
-                 "counted over the whole run by hash; cases the statement leaves open (MOD 111x, "
-                 "odd v0 lengths) are only required not to crash or misread"
+                 "counted over the whole run by hash; cases the statement leaves open (odd v0 "
+                 "lengths) are only required not to crash or misread"
                  % ("" if ctx.quick else " and TSC", sum(len(bases(p, ctx.quick)) for p in PDU_NAMES), kfull,
                     "" if ctx.quick else "; for 5..8 batched PDUs every code at every position over every uniform "
-                    "background plus 42 cyclic assignments"))
+                    "background plus 48 cyclic assignments"))
     c["exhaustive"] = True
     ctx.assumptions += [
-        "MOD codes 1110/1111 and version-0 Rx burst parts of a length other than 148/150/444/446 are not decided by "
-        "the statement: rejection and the natural reading are both accepted (coverage.open_accepted/open_rejected)",
+        "MOD codes 11xx are AQPSK with two TSC-set bits (TRXD description: '1 1 X X AQPSK, 4 TSC sets'; the MTS class "
+        "documents the whole 11xx branch as AQPSK): 1110/1111 must encode/decode with a 296-octet burst in PDUv1Rx and "
+        "PDUv2Rx/Tx incl. batched sub-PDUs; only 0111 is reserved. data_msg has no AQPSK TSC set 2/3, so the "
+        "message-codec leg does not produce these codes",
+        "version-0 Rx burst parts of a length other than 148/150/444/446 are not decided by the statement: rejection "
+        "and the natural reading are both accepted (coverage.open_accepted/open_rejected)",
         "legacy padding is a TRX->L1 feature: Tx datagrams are never padded (DESIGN.md C17 domain decision)",
         "contents whose burst length contradicts their MOD bits are not encoded (the statement does not say whether "
         "to_bytes() must refuse them)",
